@@ -63,7 +63,8 @@ func runTerminal(sess *engine.Session) error {
 		lines, err := t.ReadLine()
 		if err == io.EOF {
 			break
-		} else if err != nil {
+		} else if err != nil && err != ErrPasteIndicator {
+			// ErrPasteIndicator only says that the line was pasted
 			return err
 		}
 
